@@ -56,6 +56,7 @@ def run_dopt(ctx, count, seed, modes=(0, 16)):
     minp, mmap = [], []     # OP model cases
     hinp, hmap = [], []     # HP frozen-orientation wirelength
     linp, lmap = [], []     # LC legality
+    sinp, smap = [], []     # SH shift constraints
     for i, (l, out) in enumerate(zip(lines, impl)):
         if out.strip() == "NOLEG":
             res["noleg"] += 1
@@ -97,6 +98,11 @@ def run_dopt(ctx, count, seed, modes=(0, 16)):
                 flush()
                 res["pass_ops"] += 1
                 kind = "pass"
+                if parts[0].startswith("S "):
+                    # runShiftsOnCells: row structure before | selected cells with their new x
+                    kind = "shift"
+                    dump, sel = parts[0][2:].split("|")
+                    sinp.append("SH " + dump.strip() + " " + sel.strip()); smap.append((i, k, sel.split()))
             res["op_kinds"][kind] = res["op_kinds"].get(kind, 0) + 1
             if ck != "ok":
                 res["check_fail"].append((l, s[-200:], "DetailedPlacer::check() fails after op %d: %s" % (k, ck)))
@@ -111,6 +117,13 @@ def run_dopt(ctx, count, seed, modes=(0, 16)):
     mout, _, _ = common.run_both([driver], None, minp)
     hout, _, _ = common.run_both([driver], None, hinp)
     lout, _, _ = common.run_both([driver], None, linp)
+    sout, _, _ = common.run_both([driver], None, sinp)
+    res["shift_fail"] = []; res["shifts_checked"] = len(sinp); res["shifts_moving"] = 0
+    for (i, k, sel), o in zip(smap, sout):
+        ok = o.split("|")[0].strip()
+        if ok != "1":
+            res["shift_fail"].append((lines[i], "op %d: selected cells/new x: %s" % (k, " ".join(sel)),
+                                      "the positions written by runShiftsOnCells violate the ordering/boundary constraints of the flow problem (proved guard shift_ok = false)"))
     for (i, expect), o in zip(mmap, mout):
         got = o.split("|")[1].split() if "|" in o else []
         want = [str(x) for e in expect for x in (e[0], e[1])]
